@@ -131,20 +131,22 @@ Proof.
 Qed.
 
 (* ---------- what follows a value that ends with a word or a number ---------- *)
+(* an optional blank (possibly the last of the text) and then something that does not continue the word / number; after a
+   path, moreover, no '.' *)
 Definition cvfollow (ew isp : bool) (k : list byte) : Prop :=
-  ew = true -> exists bl k', k = pr_blank bl k' /\ wf_blank bl = true /\ nb k' = true /\
+  ew = true -> exists eof bl k', k = pr_blank bl k' /\ wfb eof bl = true /\ (eof = true -> k' = []) /\ nb k' = true /\
     (bl = [] -> wstop k' = true) /\ (isp = true -> nodot k' = true).
 
 Lemma cvfollow_wordend isp k : cvfollow true isp k -> wordend k = true.
 Proof.
-  intros H. destruct (H eq_refl) as [bl [k' [-> [Hw [Hn [H1 _]]]]]]. apply blank_then; auto with bsdb.
+  intros H. destruct (H eq_refl) as [eof [bl [k' [-> [Hw [He [Hn [H1 _]]]]]]]]. eapply blank_then_e; eauto with bsdb.
   intros E. apply wstop_wordend. auto.
 Qed.
 Lemma cvfollow_nid isp k : cvfollow true isp k -> nid k = true.
 Proof. intros H. apply wordend_identch. eapply cvfollow_wordend; eauto. Qed.
 Lemma cvfollow_nodot isp k : cvfollow true isp k -> nodot k = true.
 Proof.
-  intros H. destruct (H eq_refl) as [bl [k' [-> [Hw [Hn [H1 _]]]]]]. unfold nodot. apply blank_then; auto with bsdb.
+  intros H. destruct (H eq_refl) as [eof [bl [k' [-> [Hw [He [Hn [H1 _]]]]]]]]. unfold nodot. eapply blank_then_e; eauto with bsdb.
   intros E. apply wstop_nodot. auto.
 Qed.
 
@@ -154,8 +156,8 @@ Lemma glue_follow v b s R : wf_blank b = true -> nb R = true ->
   (s = SepNone -> const_is_path v = true -> nodot R = true) ->
   cvfollow (const_ends_word v) (const_is_path v) (pr_blank b (pr_sep s R)).
 Proof.
-  intros Hb Hn H1 H2 He. exists b, (pr_sep s R). split; [reflexivity|]. split; [exact Hb|]. split; [now apply sep_nb|].
-  split.
+  intros Hb Hn H1 H2 He. exists false, b, (pr_sep s R). split; [reflexivity|]. split; [exact Hb|]. split; [discriminate|].
+  split; [now apply sep_nb|]. split.
   - intros E. destruct s as [|[|] bl]; cbn [pr_sep sep_byte]; try reflexivity. auto.
   - intros E. destruct s as [|[|] bl]; cbn [pr_sep sep_byte]; try reflexivity. auto.
 Qed.
@@ -453,8 +455,8 @@ Hypothesis Hlf : length whole < lf.
 (* a path constant: what follows is not read as a continuation of the path *)
 Lemma cvfollow_pfollow k : cvfollow true true k -> sfx k whole -> pfollow lf k.
 Proof.
-  intros H S. split; [eapply cvfollow_nid; eauto|]. destruct (H eq_refl) as [bl [k' [-> [Hw [Hn [H1 H2]]]]]].
-  unfold p_path_sep. destruct (oblank lf whole Hlf bl k' Hw Hn S) as [o ->]. cbn [pbind]. apply pbind_err.
+  intros H S. split; [eapply cvfollow_nid; eauto|]. destruct (H eq_refl) as [eof [bl [k' [-> [Hw [He [Hn [H1 H2]]]]]]]].
+  unfold p_path_sep. destruct (oblank_e lf whole Hlf eof bl k' Hw He Hn S) as [o ->]. cbn [pbind]. apply pbind_err.
   apply dot_err. auto.
 Qed.
 
@@ -519,7 +521,7 @@ Proof.
   obk lf whole Hlf S ltac:(now apply const_nb).
   assert (Fk : cvfollow (const_ends_word key) (const_is_path key)
                  (pr_blank b1 (txt ":" ++ pr_blank b2 (pr_const v (pr_blank b3 (pr_sep s R)))))).
-  { intros _. eexists b1, _. split; [reflexivity|]. repeat split; auto. }
+  { intros _. eexists false, b1, _. split; [reflexivity|]. repeat split; auto. discriminate. }
   rewrite (Hcv key _ Hdk Hk Fk) by (sfx_of S). cbn [pbind].
   obk lf whole Hlf S ltac:(reflexivity).
   tg sym_cmap_colon (txt ":").
@@ -569,7 +571,9 @@ Qed.
 End Loops.
 
 Lemma cvfollow_true isp k : cvfollow true isp k -> cvfollow true false k.
-Proof. intros H _. destruct (H eq_refl) as [bl [k' [E [Hw [Hn [H1 _]]]]]]. exists bl, k'. repeat split; auto. discriminate. Qed.
+Proof.
+  intros H _. destruct (H eq_refl) as [eof [bl [k' [E [Hw [He [Hn [H1 _]]]]]]]]. exists eof, bl, k'. repeat split; auto. discriminate.
+Qed.
 
 Theorem rt_const : forall d v k, cv_depth v < d -> wf_const v = true ->
   cvfollow (const_ends_word v) (const_is_path v) k -> sfx (pr_const v k) whole ->
